@@ -274,8 +274,13 @@ def _s_invupd(tier):
                          st.floats(-12.0, -3.0)).map(
                              lambda e: float(10.0 ** e))
         dmode = draw(st.sampled_from(["generic", "generic", "mu_ones",
-                                      "zeros", "some_zero"]))
-        if dmode == "generic":
+                                      "zeros", "some_zero", "mixed_sign"]))
+        if dmode == "mixed_sign":
+            # a correction in both directions: entries in (-0.5, 0.5) times
+            # the smallest eigenvalue of A (A + D stays positive definite)
+            d = draw(st.lists(st.floats(-0.5, 0.5).map(
+                lambda x: round(x, 6)), min_size=n, max_size=n))
+        elif dmode == "generic":
             d = draw(st.lists(dpos, min_size=n, max_size=n))
         elif dmode == "mu_ones":
             d = [draw(dpos)] * n
@@ -755,9 +760,15 @@ def _check_invupd(case, ctx):
         if kn > 0:
             A = R + skew * float(ev.max()) * K / kn
     d = np.array([float(x) for x in case["d"]], dtype=float)
-    if case["d_rel"]:
+    if case["dmode"] == "mixed_sign":
+        d = d * float(ev.min())
+        A = R       # (Hermitian A: A + D is positive definite by construction)
+        ctx.label("invupd:negative_entries" if np.any(d < 0)
+                  else "invupd:mixed_sign_all_positive")
+    elif case["d_rel"]:
         d = d * float(ev.max())                  # update comparable to A
-    assert d.shape == (n,) and np.all(d >= 0)
+    assert d.shape == (n,) and (np.all(d >= 0) or
+                                case["dmode"] == "mixed_sign")
     se = int(case.get("scale_exp", 0))
     if se:
         A, d, ev = A * 10.0 ** se, d * 10.0 ** se, ev * 10.0 ** se
